@@ -61,13 +61,14 @@ ANCHORS = [
     "txtorcon.torcontrolprotocol:parse_keywords",
 ]
 FLOORS = {
-    "quick": {"evaluations": 600, "bootstrap_reads_compared": 8000, "events_delivered": 600, "event_reads_compared": 8000,
-              "tracking_probes": 300, "name_lookups_compared": 8000, "socks_endpoint_checks": 300,
-              "reach:txtorcon.torconfig:TorConfig._conf_changed": 600,
-              "reach:txtorcon.torconfig:TorConfig._do_setup": 600},
-    "thorough": {"evaluations": 8000, "bootstrap_reads_compared": 100000, "events_delivered": 8000,
-                 "event_reads_compared": 100000, "tracking_probes": 4000, "name_lookups_compared": 100000,
-                 "socks_endpoint_checks": 4000},
+    "quick": {"evaluations": 350, "bootstrap_reads_compared": 5000, "events_delivered": 300, "event_reads_compared": 4000,
+              "tracking_probes": 250, "name_lookups_compared": 10000, "socks_endpoint_checks": 600,
+              "reach:txtorcon.torconfig:TorConfig._conf_changed": 400,
+              "reach:txtorcon.torconfig:TorConfig._do_setup": 350,
+              "reach:txtorcon.torconfig:TorConfig._get_defaults": 350},
+    "thorough": {"evaluations": 5000, "bootstrap_reads_compared": 80000, "events_delivered": 4000,
+                 "event_reads_compared": 60000, "tracking_probes": 3500, "name_lookups_compared": 150000,
+                 "socks_endpoint_checks": 8000, "reach:txtorcon.torconfig:TorConfig._conf_changed": 5000},
 }
 
 
@@ -279,9 +280,9 @@ class Run(object):
     def logged(self, stage, cls):
         errs = self.logcap.take()
         if errs:
-            self.V(stage + "-logged-error", cls, {"errors": errs[:3]})
+            self.V(stage + "-logged-error", errs[0][0], {"errors": errs[:3], "classes": cls})
         if self.link.exceptions:
-            self.V(stage + "-exception-escaped", cls, {"exceptions": self.link.exceptions[:3]})
+            self.V(stage + "-exception-escaped", "general", {"exceptions": self.link.exceptions[:3], "classes": cls})
 
     # -- read-append-save on a list option -----------------------------------------
     def probe(self, n, spelled, value, after):
